@@ -52,6 +52,11 @@ CLAIMS = {
         text='Static, for Distributed Shampoo _fd_update_root, Tearfree Sketchy _update_axis (ekfac / relative-epsilon valuations) and OCO _fd_update_fn (4 algorithms): the update equations are homogeneous in the gradient scale with eigenvalues/escaped mass covariance-level and sketch roots root-level, each new slot has its old degree, and the pure-history part of every stored quantity is discounted by beta^(degree/2) (zero-gradient step scales V diag(l) V\' and t by the same beta); retained values/vectors are the first k of one SVD with cut-off s[k] (OCO: last row, rho = s[-1]); t\' = beta t + cutoff^2; stored inverse roots are (l\' + t\' [+eps])^(-1/p) of the same step with clamps at 0; the factored matrix is [sqrt(beta) V sqrt(l), unfolding of the gradient along the axis]. Necessary conditions of C09.',
         note='Trusted: homogeneity of singular values/vectors; masks and epsilons degree 0. Undecided: the PSD bracket, orthonormality, exact low-rank tracking (numerical linear algebra); linear_approx_tail heuristic.',
         design='4/C09'),
+    'C10': dict(
+        technique='symbolic slot regions (intervals linear in d, r) for the packed layout writer/reader with disjointness decided on the admissible cone; predicate truth tables; value-graph normal forms of the compressed application and of _low_rank_root; call-argument flow of the signed rank',
+        text='Static: each of the 6 fields written by _fd_low_rank_pack is read by _fd_low_rank_unpack from the same region and the regions are pairwise disjoint for all r >= 1, d >= r+3; wrappers route fields correctly; buffer (d,|r|+2) with no pinned dtype; fields must be start-anchored to survive the pad/slice round trip of the replicated update (known finding F18 for eigvals / has_zeros); _precond_dim < d <=> _should_compress on all 6 abstract states and the signed configured rank reaches predicate and both special roots; the compressed application is c(g - gVV^T) + (gV e)V^T with the unpacked flag alone selecting the unchanged gradient; _low_rank_root keeps the first |r| of the rolled (negative rank) or flipped spectrum and averages the rest over the unpadded dims. Necessary conditions of C10.',
+        note='Trusted: numpy indexing semantics. Undecided: numerical agreement with the dense matrix; eigendecomposition accuracy.',
+        design='4/C10'),
 }
 
 NOT_BUILT_REASON = 'checker for this property not built yet (build phase in progress; see DESIGN.md section 9)'
